@@ -137,6 +137,7 @@ def eval_clause(ex, info, clause_node: ast.FunctionDef, st: State, extra: dict):
     sub = Exec(ex.ctx, info.file, contract=None, spec_mode=True)
     sub.fn_stack = [(clause_node, None)]
     sub.float_mode = ex.float_mode
+    sub.max_unfold = ex.max_unfold
     sub.fallback_relpath = info.relpath
     n0 = len(st.pc)
     s2 = State(env, list(st.pc), st.facts)
